@@ -301,6 +301,10 @@ func (db *DB) Merge() error {
 		return errors.New("not support mode `HintBPTSparseIdxMode`")
 	}
 
+	if db.closed {
+		return ErrDBClosed
+	}
+
 	db.isMerging = true
 
 	_, pendingMergeFIds = db.getMaxFileIDAndFileIDs()
